@@ -63,6 +63,25 @@ def run(ctx):
     r.inst("SharedEncoding::default", sample={"constructed_in": sorted(set(enc))})
     if sorted(set(enc)) != ["HtmlRewriter::new"]:
         r.violate("SharedEncoding::default", f"the shared encoding cell is created in {sorted(set(enc))}; it must be per rewriter", None)
+    # state that can be shared between instances lives in reference-counted interior-mutable fields: the reviewed ones
+    # are created per rewriter (above); any other such field (e.g. an Arc<AtomicBool> kept in the C API's builder and
+    # cloned into every rewriter built from it) couples instances
+    SHARED_OK = {("lol_html", "SharedMemoryLimiter", "current_usage"): "created per rewriter (SharedMemoryLimiter::new callers, above)",
+                 ("lol_html", "TransformStreamSettings", "next_encoding"): "the rewriter's own SharedEncoding",
+                 ("lol_html", "Dispatcher", "next_encoding"): "the rewriter's own SharedEncoding",
+                 ("lol_html", "StringChunk", "0"): "Mutex around one streaming handler owned by one token (Sync wrapper, not shared)"}
+    for cname, m_ in (("lol_html", core), ("capi", capi)):
+        for p_, a in sorted(m_.adts.items()):
+            if "::tests" in p_ or "test_utils" in p_:
+                continue
+            for v in a["variants"]:
+                for fld in v["fields"]:
+                    if re.search(r"(Arc|Rc)<.*(Atomic|Mutex|RwLock|Cell|OnceLock|OnceCell|Lazy)|^std::sync::atomic|Mutex<|RwLock<", fld["ty"]):
+                        k3 = (cname, p_.split("::")[-1], fld["name"])
+                        key = "shared-field|%s.%s" % (k3[1], k3[2])
+                        r.inst(key, sample={"crate": cname, "field": k3[1] + "." + k3[2], "type": fld["ty"][:70], "reviewed": SHARED_OK.get(k3)})
+                        if k3 not in SHARED_OK:
+                            r.violate(key, f"{k3[1]}.{k3[2]}: {fld['ty'][:80]} is shareable mutable state outside the per-rewriter limiter / encoding cell: every clone of it (e.g. one per rewriter built from the same builder) sees the others' writes, so one instance's events change another's results", a["span"])
     # Arc/Rc/Mutex statics or lazies anywhere else in the core crate
     lazy = sorted(set(f.key for f in core.fns if not core.is_test_fn(f) for bi, t in f.calls(r"LazyLock|OnceLock.*::get_or_init$|Lazy::|thread::local|LocalKey")))
     lazy = [l for l in lazy if not l.startswith("Dispatcher::flush_encoding_change")]
